@@ -846,7 +846,7 @@ func structFieldCount(P *Prog, pkgShort, name string) int {
 // single 0 appear although the file is incomplete).
 func ruleSendFile(rule string) ruleFn {
 	return func(c *Ctx) {
-		c.Doc(rule, "replica/client SendFile: a nil return is cut off by the success of the launch request, the success of the poll, ExitCode == 0, and the second consecutive observation of it; any other exit code but -2 (still running) is an error")
+		c.Doc(rule, "replica/client SendFile: a nil return is cut off by the success of the launch request, the success of the poll, ExitCode == 0, and the second consecutive observation of it; any other exit code but -2 (still running) is an error; the sync agent answers a launch request only after it marked the process still running (-2) in the handler itself")
 		fn := c.Anchor(rule, "(*replica/client.ReplicaClient).SendFile")
 		if fn == nil {
 			return
@@ -891,6 +891,28 @@ func ruleSendFile(rule string) ruleFn {
 					okcall("(*replica/client.ReplicaClient).get"),
 					atom("exit code 0", "+"+ex+" ==0"))
 			}
+		}
+		// the other end of that protocol: the sync agent answers the launch request (after which the
+		// client starts polling) only once the new process carries the "still running" code -2, set
+		// in the handler itself - in the launcher goroutine it may come after the first poll, which
+		// then reads 0 = finished
+		if cp := c.Anchor(rule, "(*sync/agent.Server).CreateProcess"); cp != nil {
+			RC := NewRenderer(cp)
+			var writes []ssa.Instruction
+			for _, in := range AnyCallsTo(cp, "(*github.com/rancher/go-rancher/api.ApiContext).Write") {
+				writes = append(writes, in)
+			}
+			if len(writes) == 0 {
+				c.Undecided(rule, FnName(cp)+" | answers the launch request", c.P.Pos(cp.Pos()), "no apiContext.Write found")
+			}
+			c.Guard(rule, cp, writes, "answer the launch request", nil, Need{Desc: "the process is marked still running (ExitCode = -2)", Instr: func(x ssa.Instruction) bool {
+				st, ok := x.(*ssa.Store)
+				if !ok || !strings.HasSuffix(RC.V(st.Addr), ".ExitCode") {
+					return false
+				}
+				k, isC := intConst(st.Val)
+				return isC && k == -2
+			}})
 		}
 	}
 }
